@@ -17,6 +17,17 @@ Theorem lancero_model_passes_check :
 Proof. exact model_passes_check_proof. Qed.
 Print Assumptions lancero_model_passes_check.
 
+(* The same for every later run on the same source object (stop, another geometry, start): whatever frame number,
+   trigger level and block time the previous run left behind, the run's history -- produced with fresh Mix objects
+   and the channel-order table of THIS run's geometry -- passes the checker started at that frame number and level.
+   Nothing else of the previous run matters. *)
+Theorem lancero_model_passes_check_every_run :
+  forall est g nsamp next ext prev ops,
+    C04_check_from {| c_g := g; c_nsamp := nsamp; c_gap := None |} next ext
+                   (combine ops (run est true g nsamp (start_state g next ext prev) ops)) = true.
+Proof. exact model_passes_check_from_proof. Qed.
+Print Assumptions lancero_model_passes_check_every_run.
+
 (* ---------- the reader goroutine is exact on every chunking of an uninterrupted delivery ---------- *)
 (* For every geometry (ncols >= 1, nrows >= 2), every frame content and every way of chopping the byte
    stream into driver reads (any lengths, also empty ones, shorter than 3 frames, cutting inside words):
